@@ -561,3 +561,37 @@ func VerifC08Split() {
 	vf.Assert(bytes.Equal(all, data), "fragments-concatenate-to-the-header-block")
 	vf.Reach("done")
 }
+
+// VerifC08EarlyGrant: a receiver may enlarge a stream's window before the first frame of that
+// stream has been relayed towards it (a client that grants more room for the response right
+// after sending its request). That credit counts: DATA that fits the windows the receiver has
+// granted, and the END_STREAM it carries, arrive whether the grant came before the first
+// response frame or after the DATA was held back.
+func VerifC08EarlyGrant() {
+	w := zznewWorld(nil)
+	req, resp := zznewPair(w, true), zznewPair(w, false)
+	// the client allows 0 or 1 byte per stream, so the 2-byte DATA frame needs the grant
+	win := vf.Choice("initial-window", 2)
+	vf.Assert(w.cw.WriteSettings(http2.Setting{ID: http2.SettingInitialWindowSize, Val: uint32(win)}) == nil, "harness-write-settings")
+	vf.Assert(w.pumpClient() == nil, "relay-accepts-settings")
+	req.sendHeaders(1, 0, vf.Choice("request-ends-with-headers", 2) == 1, nil, 0, 0)
+	vf.Assert(req.pump() == nil, "relay-accepts-request")
+	req.collect()
+	early := vf.Choice("grant-before-the-first-response-frame", 2) == 1
+	if early {
+		vf.Assert(w.cw.WriteWindowUpdate(1, 10) == nil, "harness-write-window-update")
+		vf.Assert(w.pumpClient() == nil, "relay-accepts-window-update")
+	}
+	resp.sendHeaders(1, 1, false, nil, 0, 0)
+	resp.sendData(1, vf.Bytes("data", 2), true, false, 0)
+	vf.Assert(resp.pump() == nil, "relay-accepts-response")
+	resp.collect()
+	if !early {
+		vf.Assert(w.cw.WriteWindowUpdate(1, 10) == nil, "harness-write-window-update")
+		vf.Assert(w.pumpClient() == nil, "relay-accepts-window-update")
+		resp.collect()
+	}
+	req.compare("early-grant-request", []uint32{1})
+	resp.compare("early-grant-response", []uint32{1})
+	vf.Reach("done")
+}
